@@ -779,6 +779,93 @@ def sweep(kinds=None, cls=None, fixtures_only=False):
     return out
 
 
+# --------------------------------------------------------------- isolation --
+META_MEMBERS = ("meta.xml", "docProps/core.xml", "docProps/app.xml")
+
+
+def strip_metadata_members(path):
+    """The document without its metadata parts (meta.xml / docProps/*): damaged or minimal but still accepted."""
+    try:
+        src = zipfile.ZipFile(path)
+    except Exception:  # noqa
+        return None
+    if not any(n in META_MEMBERS for n in src.namelist()):
+        return None
+    buf = io.BytesIO()
+    try:
+        with zipfile.ZipFile(buf, "w", zipfile.ZIP_DEFLATED) as z:
+            for zi in src.infolist():
+                if zi.filename in META_MEMBERS:
+                    continue
+                z.writestr(zi, src.read(zi.filename))
+    except Exception:  # noqa -- a fixture that is itself a damaged archive
+        return None
+    return buf.getvalue()
+
+
+def path_fields(md):
+    return tuple(getattr(md, f, "<missing>") for f in ("filename", "file_extension", "file_path", "folder_path"))
+
+
+def isolation_failures(data, name):
+    """Three extractions of the same bytes in one process: with path A, with no path, with path B.  No result may see another
+    extraction's path: the path-less one reports all None, the earlier ones keep what they reported."""
+    import sharepoint2text
+    out = []
+    ex = sharepoint2text.get_extractor(name)
+    ext = os.path.splitext(name)[1]
+    pa, pb = "first/dir/alpha" + ext, "/other/place/beta" + ext
+    try:
+        ra = list(ex(io.BytesIO(data), pa))
+        snap = [path_fields(r.get_metadata()) for r in ra]
+        rn = list(ex(io.BytesIO(data), None))
+        rb = list(ex(io.BytesIO(data), pb))
+    except Exception:  # noqa -- refused input: not a result
+        return out
+    if name.lower().endswith(ARCHIVE_EXT):
+        return out
+    for i, r in enumerate(rn):
+        v = path_fields(r.get_metadata())
+        if any(x is not None for x in v):
+            out.append({"kind": "shared-metadata", "where": f"{type(r).__name__}.get_metadata()", "detail": f"extracted without a path after an extraction with path {pa!r}: reports {v!r}"})
+    for i, r in enumerate(ra):
+        v = path_fields(r.get_metadata())
+        if v != snap[i]:
+            out.append({"kind": "shared-metadata", "where": f"{type(r).__name__}.get_metadata()", "detail": f"result of the extraction with path {pa!r} now reports {v!r} (was {snap[i]!r}) after later extractions"})
+    for i, r in enumerate(rb):
+        v = path_fields(r.get_metadata())
+        if v[0] != os.path.basename(pb):
+            out.append({"kind": "shared-metadata", "where": f"{type(r).__name__}.get_metadata()", "detail": f"extracted with path {pb!r}: reports {v!r}"})
+    return out
+
+
+def isolation_documents(module_key=None):
+    import sharepoint2text
+    for f in fixture_files():
+        try:
+            mod = sharepoint2text.get_extractor(f).__module__
+        except Exception:  # noqa
+            continue
+        if module_key and module_key not in mod and not (module_key == "_shared" and "open_office" in mod):
+            continue
+        data = open(f, "rb").read()
+        yield f, "fixture", data
+        stripped = strip_metadata_members(f)
+        if stripped is not None:
+            yield f, "metadata parts (meta.xml / docProps/*) removed", stripped
+
+
+def find_isolation(ob):
+    key = ob.split("C04/")[1].split(".py")[0] if "C04/" in ob else None
+    for f, what, data in isolation_documents(key):
+        bad = isolation_failures(data, f)
+        if bad:
+            return {"reproduced": True, "target": "sharepoint2text extractor, three extractions in one process (path A, no path, path B)",
+                    "inputs": {"fixture": f.replace(REPO + "/", ""), "variant": what}, "expected": "each result reports only its own path argument (all None without path)",
+                    "observed": f"{bad[0]['where']}: {bad[0]['detail']}"}
+    return {"reproduced": False, "note": "repeated extractions: no result sees another extraction's path"}
+
+
 # ---------------------------------------------------------------- metadata --
 def find_metadata(reader, strings=None):
     from replay import c04_meta
@@ -795,6 +882,9 @@ def find(req):
         return known(req["known_finding"])
     if req.get("sweep"):
         s = sweep(fixtures_only=bool(req.get("fixtures_only")))
+        for f, what, data in isolation_documents():
+            for x in isolation_failures(data, f):
+                s.append(dict(x, file=f.replace(REPO + "/", "") + f" [{what}]"))
         from replay import c04_meta
         for r in list(c04_meta.CASES) + ["rtf"]:            # documents with known properties: reported unchanged
             try:
@@ -851,6 +941,8 @@ def find(req):
         return find_table(ob.split("::")[1].split(".")[0])
     if ".get_bytes/" in ob:
         return find_image(ob.split("::")[1].split(".")[0])
+    if "populate_from_path-receiver" in ob:
+        return find_isolation(ob)
     if "populate_from_path" in ob or "path-fields-default" in ob:
         return find_path()
     if "_odf_length_to_px" in ob or "length-helper" in ob or "OpenDocumentImage.get_metadata" in ob:
